@@ -37,6 +37,12 @@ type M2 interface{ String() string; ~int8 | ~int }
 type K1 interface{ comparable; M() }
 type K2 interface{ M(); comparable }
 
+type X1 interface{ F(*int, []string, [3]int, map[string]int, chan int) (func(), error); G(...int) }
+type X2 interface{ G(...int); F(*int, []string, [3]int, map[string]int, chan int) (func(), error) }
+type X3 interface{ F(*int, []string, [4]int, map[string]int, chan int) (func(), error); G(...int) }
+type X4 interface{ F(*N1, []N2) N1 }
+type X5 interface{ F(*N1, []N2) N1 }
+
 type C1 interface{ ~int | ~string }
 type C2 interface{ ~string | ~int }
 type C3 interface{ int | string }
